@@ -212,7 +212,8 @@ CHECKS = {
         rule=("rapid-generated sequences; non-trivial = at least one connection was ended while a ring involved was full (stalled subscriber with pending deliveries or blocked publisher); distinct = FNV-64 of the sequence JSON"),
         assumptions=["a blocked delivery to a still-open stalled peer may hold a teardown up (the statement's proviso)", "wills are judged only while the server is up"],
         units=[dict(name="faults", test="TestC16", checks=(240, 15000), shards=(4, 14), timeout=(300, 3000)),
-               dict(name="close-window", test="TestC16Window", checks=(48, 4000), shards=(4, 8), timeout=(300, 3000))]),
+               dict(name="close-window", test="TestC16Window", checks=(48, 4000), shards=(4, 8), timeout=(300, 3000)),
+               dict(name="id-exhaustion", test="TestC16Exhaust", kind="enum", shards=(4, 4), timeout=(300, 3000))]),
     "C17": dict(
         pkg="p_broker", level="exploration",
         technique="concurrent stress with rapid-generated publisher/subscriber configurations; every received byte strictly parsed; self-describing payloads with per-publisher sequence numbers",
@@ -255,7 +256,7 @@ CHECKS = {
         level_text=("Generated producer programs (Write, WriteWait+WriteCommit, ReadFrom) and consumer programs (Read, ReadPeek/ReadWait + ReadCommit, WriteTo, Len) "
                     "with boundary-biased chunk sizes on pre-positioned rings (empty/partial/full/wrapped) run against a real ring; every byte the consumer obtains is compared "
                     "with a stream whose bytes identify their position, peeked bytes are re-verified before commit, and produced-consumed never exceeds the size. "
-                    "Schedules: Go scheduler (free) and rapid-drawn schedules at the ring's yield points (controlled). Sampling, not a proof."),
+                    "Schedules: Go scheduler (free) and rapid-drawn schedules at the ring's yield points (controlled). Unit service-rings exercises the rings as the connection engine uses them: 2-4 connections and in-process publishers deliver into one subscriber's outgoing ring while it reads a little, stops until the deliverers are stuck on the full ring, and reads on; every publisher's messages must arrive complete, intact and in order. Sampling, not a proof."),
         level_note=("Trusted: the stream oracle and the interpreter in harness/p_ring; one producer and one consumer goroutine as the statement says; "
                     "interleavings beyond the hooked yield points are whatever the Go scheduler produces."),
         rule=("rapid-generated (producer program, consumer templates, initial cursor state[, schedule bytes]); non-trivial = (free mode: data wrapped >= 2 ring sizes and) a peek crossed "
@@ -264,6 +265,7 @@ CHECKS = {
         units=[
             dict(name="free", test="TestC14Free", checks=(400, 30000), shards=(4, 14)),
             dict(name="controlled", test="TestC14Controlled", checks=(400, 30000), shards=(4, 14)),
+            dict(name="service-rings", pkg="p_broker", test="TestC14ServiceRings", checks=(120, 6000), shards=(4, 14), timeout=(300, 3000)),
         ]),
     "C15": dict(
         pkg="p_ring", level="exploration",
